@@ -442,7 +442,7 @@ class Ctx:
         return r, g
 
     # ---- drivers ----
-    def drive(self, binary, script_lines, name, timeout=900, env=None, reset_prefix="R", par=None):
+    def drive(self, binary, script_lines, name, timeout=900, env=None, reset_prefix="R", par=None, lines_per_proc=3000):
         """Run a driver over a script (list of lines; executions start with an
         'R' line).  The script is split on execution boundaries and run by up to
         `par` driver processes.  Returns the path of the concatenated trace."""
@@ -450,7 +450,7 @@ class Ctx:
         if not starts:
             raise InfraError("script without executions: " + name)
         par = par or NCPU
-        par = max(1, min(par, len(starts), max(1, len(script_lines) // 3000)))
+        par = max(1, min(par, len(starts), max(1, len(script_lines) // lines_per_proc)))
         # chunk boundaries balanced by line count
         bounds = [starts[0]]
         target = len(script_lines) / par
